@@ -381,7 +381,11 @@ def write_bag_trajectory(writer, traj: PoseTrajectory3D, topic_name: str,
     for stamp, xyz, quat in zip(traj.timestamps, traj.positions_xyz,
                                 traj.orientations_quat_wxyz):
         sec = int(stamp // 1)
-        nanosec = int((stamp - sec) * 1e9)
+        # Round to the nearest nanosecond (truncating can be off by > 1 ns
+        # after reading the stamp back as a float).
+        nanosec = int(round((stamp - sec) * 1e9))
+        if nanosec == 10**9:
+            sec, nanosec = sec + 1, 0
         time = Time(sec, nanosec)
         if isinstance(writer, Rosbag1Writer):
             header = Header(seq, time, frame_id)
